@@ -5,7 +5,7 @@
   `Coll/Slice.lean` (cursors, holes, guards) compute exactly these functions on well-formed
   vectors; `Props/C06|C08|C16.lean` then reason about plain lists.
 -/
-import BumpProof.Coll.Slice
+import BumpProof.Coll.Vecs
 
 namespace Coll
 
@@ -23,24 +23,112 @@ def Vec.after {α} (v : Vec) (r : SpecOut α) : Vec :=
   { slots := I r.final ++ H (v.cap - r.final.length), len := r.final.length,
     dropLog := v.dropLog ++ r.dropped, escaped := v.escaped ++ r.escaped }
 
-/-! ## retain -/
+/-! ## retain / dedup_by: one pass that keeps or drops each element -/
 
-/-- `retain` from a point where `kept` are the survivors so far and the given list is unchecked -/
-def retainTail (bombs : List Id) (kept : List Id) : List Id → List Outcome → SpecOut Unit
+/-- one pass over the unchecked elements: the callback's answer `b` decides (`keep b`) whether the
+    element survives (appended to `kept`) or is dropped; a panicking callback leaves everything that
+    was not dropped in place, in order; a panicking `Drop` ends the pass with the element gone -/
+def sieve (keep : Nat → Bool) (bombs : List Id) (kept : List Id) : List Id → List Outcome → SpecOut Unit
   | [], o => { final := kept, exit := .ret (), rest := o }
   | x :: rest, [] => { final := kept ++ x :: rest, exit := .panic false, rest := [] }
   | x :: rest, .panic :: o => { final := kept ++ x :: rest, exit := .panic false, rest := o }
   | x :: rest, .ret b :: o =>
-    if b = 0 then
-      if bombs.contains x then { final := kept ++ rest, dropped := [x], exit := .panic true, rest := o }
-      else
-        let r := retainTail bombs kept rest o
-        { r with dropped := x :: r.dropped }
-    else retainTail bombs (kept ++ [x]) rest o
+    if keep b then sieve keep bombs (kept ++ [x]) rest o
+    else if bombs.contains x then { final := kept ++ rest, dropped := [x], exit := .panic true, rest := o }
+    else
+      let r := sieve keep bombs kept rest o
+      { r with dropped := x :: r.dropped }
 
-/-- `retain` on the id sequence (both phases of the Rust function act alike on the sequence: an
-    element is kept, or dropped, or the callback panics and everything not yet dropped stays) -/
+/-- `retain`: the predicate's answer `b ≠ 0` keeps the element -/
 def retainSpec (bombs : List Id) (xs : List Id) (o : List Outcome) : SpecOut Unit :=
-  retainTail bombs [] xs o
+  sieve (· != 0) bombs [] xs o
+
+/-- `dedup_by`: the first element always stays; `same_bucket(cur, prev) = true` drops `cur` -/
+def dedupSpec (bombs : List Id) (xs : List Id) (o : List Outcome) : SpecOut Unit :=
+  match xs with
+  | [] => { final := [], exit := .ret (), rest := o }
+  | x :: rest => sieve (· == 0) bombs [x] rest o
+
+/-! ## truncate / clear / pop / remove / swap_remove -/
+
+/-- exit of an operation whose only possible panic is a `Drop` of one of `ds` -/
+def dropExit (bombs : List Id) (ds : List Id) : Exit Unit :=
+  if ds.any bombs.contains then .panic true else .ret ()
+
+def truncateSpec (bombs : List Id) (xs : List Id) (n : Nat) : SpecOut Unit :=
+  if n ≥ xs.length then { final := xs, exit := .ret (), rest := [] }
+  else { final := xs.take n, dropped := xs.drop n, exit := dropExit bombs (xs.drop n), rest := [] }
+
+def clearSpec (bombs : List Id) (xs : List Id) : SpecOut Unit :=
+  { final := [], dropped := xs, exit := dropExit bombs xs, rest := [] }
+
+def popSpec (xs : List Id) : SpecOut (Option Id) :=
+  match xs.getLast? with
+  | none => { final := xs, exit := .ret none, rest := [] }
+  | some x => { final := xs.dropLast, escaped := [x], exit := .ret (some x), rest := [] }
+
+def removeSpec (xs : List Id) (i : Nat) : SpecOut Id :=
+  match xs[i]? with
+  | none => { final := xs, exit := .panic false, rest := [] }
+  | some x => { final := xs.eraseIdx i, escaped := [x], exit := .ret x, rest := [] }
+
+/-- `swap_remove`: the last element takes the place of the removed one -/
+def swapRemoveSpec (xs : List Id) (i : Nat) : SpecOut Id :=
+  match xs[i]?, xs.getLast? with
+  | some x, some l => { final := (xs.set i l).dropLast, escaped := [x], exit := .ret x, rest := [] }
+  | _, _ => { final := xs, exit := .panic false, rest := [] }
+
+/-! ## push / insert / extend_from_slice_clone / resize (given whether the reservation succeeded) -/
+
+def pushSpec (room : Bool) (xs : List Id) (id : Id) : SpecOut Unit :=
+  if room then { final := xs ++ [id], exit := .ret (), rest := [] }
+  else { final := xs, dropped := [id], exit := .panic false, rest := [] }
+
+def insertSpec (room : Bool) (xs : List Id) (i : Nat) (id : Id) : SpecOut Unit :=
+  if i ≤ xs.length ∧ room then { final := xs.take i ++ id :: xs.drop i, exit := .ret (), rest := [] }
+  else { final := xs, dropped := [id], exit := .panic false, rest := [] }
+
+/-- `n` clones are appended one by one; a panicking `Clone` keeps the clones made so far -/
+def extendCloneSpec (xs : List Id) : Nat → List Outcome → SpecOut Unit
+  | 0, o => { final := xs, exit := .ret (), rest := o }
+  | _ + 1, [] => { final := xs, exit := .panic false, rest := [] }
+  | _ + 1, .panic :: o => { final := xs, exit := .panic false, rest := o }
+  | n + 1, .ret id :: o => extendCloneSpec (xs ++ [id]) n o
+
+/-- `extend_with(n, value)` after a successful reservation: `n - 1` clones, then the value itself -/
+def extendWithSpec (bombs : List Id) (xs : List Id) (n : Nat) (value : Id) (o : List Outcome) : SpecOut Unit :=
+  match n with
+  | 0 => { final := xs, dropped := [value], exit := if bombs.contains value then .panic true else .ret (), rest := o }
+  | m + 1 =>
+    let r := extendCloneSpec xs m o
+    match r.exit with
+    | .ret _ => { r with final := r.final ++ [value] }
+    | .panic _ => { r with dropped := [value], exit := .panic false }
+
+/-- with the outcome of the reservation -/
+def extendCloneSpecR (room : Bool) (xs : List Id) (n : Nat) (o : List Outcome) : SpecOut Unit :=
+  if room then extendCloneSpec xs n o else { final := xs, exit := .panic false, rest := o }
+
+def extendWithSpecR (room : Bool) (bombs : List Id) (xs : List Id) (n : Nat) (value : Id) (o : List Outcome) : SpecOut Unit :=
+  if room then extendWithSpec bombs xs n value o
+  else { final := xs, dropped := [value], exit := .panic false, rest := o }
+
+/-- `resize(new_len, value)`: grow by clones of `value` (and `value` itself), or truncate and drop `value` -/
+def resizeSpec (room : Bool) (bombs : List Id) (xs : List Id) (newLen : Nat) (value : Id) (o : List Outcome) : SpecOut Unit :=
+  if newLen > xs.length then extendWithSpecR room bombs xs (newLen - xs.length) value o
+  else
+    let t := truncateSpec bombs xs newLen
+    { final := t.final, dropped := t.dropped ++ [value],
+      exit := match t.exit with
+        | .ret _ => if bombs.contains value then .panic true else .ret ()
+        | .panic d => .panic d,
+      rest := o }
+
+/-- ids the operation brought into existence (inserted by the caller or produced by `Clone`) -/
+def clonedIds : Nat → List Outcome → List Id
+  | 0, _ => []
+  | _ + 1, [] => []
+  | _ + 1, .panic :: _ => []
+  | n + 1, .ret id :: o => id :: clonedIds n o
 
 end Coll
